@@ -233,6 +233,32 @@ def task_models(job) -> dict:
     return out
 
 
+# ------------------------------------------------------------------------------------------------ roundtrip
+def task_roundtrip(job, items) -> list:
+    """items: [{"cls": model class name, "json": instance}] -> structure_from_dict then unstructure_to_dict with the package's core."""
+    res = []
+    try:
+        conv = importlib.import_module(job["core"] + ".cattrs_converter")
+        models = importlib.import_module(job["package"] + ".models")
+    except BaseException as e:
+        return [{"fatal": err(e)}]
+    for it in items:
+        out = {"id": it.get("id")}
+        try:
+            cls = getattr(models, it["cls"])
+            v = conv.structure_from_dict(it["json"], cls)
+            out["type"] = type_tag(v)
+            if dataclasses.is_dataclass(v):
+                out["field_types"] = {f.name: type_tag(getattr(v, f.name)) for f in dataclasses.fields(v)}
+            back = conv.unstructure_to_dict(v)
+            json.dumps(back)
+            out["back"] = back
+        except BaseException as e:
+            out["error"] = err(e)
+        res.append(out)
+    return res
+
+
 # ------------------------------------------------------------------------------------------------ calls
 def decode_arg(job, a):
     if not isinstance(a, dict) or "k" not in a:
@@ -399,6 +425,8 @@ def main():
                 out[name] = task_surface(job)
             elif name == "models":
                 out[name] = task_models(job)
+            elif name == "roundtrip":
+                out[name] = task_roundtrip(job, t["items"])
             elif name == "calls":
                 out[name] = task_calls(job, t["calls"])
             else:
